@@ -27,6 +27,7 @@ import (
 	"github.com/flant/shell-operator/pkg/hook/config"
 	"github.com/flant/shell-operator/pkg/hook/task_metadata"
 	htypes "github.com/flant/shell-operator/pkg/hook/types"
+	kemtypes "github.com/flant/shell-operator/pkg/kube_events_manager/types"
 	metricstorage "github.com/flant/shell-operator/pkg/metric_storage"
 	shell_operator "github.com/flant/shell-operator/pkg/shell-operator"
 	"github.com/flant/shell-operator/pkg/task"
@@ -111,6 +112,15 @@ func c18Arrivals(rng *Rng, iv time.Duration, n int) ([]int64, string) {
 // (executed on request, outside the queues).
 var c18Kinds = []string{"onStartup", "schedule", "kubernetes", "validating", "mutating", "conversion"}
 
+func c18Has(xs []string, x string) bool {
+	for _, y := range xs {
+		if y == x {
+			return true
+		}
+	}
+	return false
+}
+
 func c18RandomKinds(rng *Rng) []string {
 	var ks []string
 	for _, k := range c18Kinds {
@@ -192,7 +202,7 @@ func c18Drive(c *Case, lim *rate.Limiter, ts []int64) (grants []int64) {
 
 func runC18(r *Run) {
 	r.CaseTimeout = 120 * time.Second // the operator-level case bounds itself at 50 s and turns inconclusive
-	r.Rule = "(a) the rate.Limiter returned by the real CreateRateLimiter for random (I, B) — I from 1 ms to 5 s incl. values that are not a whole number of ms, B from 0 (= default 1) to 10 — driven through ReserveN(t,1).DelayFrom(t) with 20..80 (thorough 100) explicit request times on a millisecond grid in 7 arrival patterns (one burst, faster than I, slower than I, exactly I, bursts with gaps, mixed, random); every delay is compared with the integer model (tolerance 1 us) and the window bound B+ceil(T/I) is checked exactly on the limiter's own grant times for every window; unthrottled configurations (no settings, I = 0, I < 0) must never delay; a few cases with request times going backwards exercise the clamp and are checked against the skew bound B+ceil((T+S)/I). (b) settings blocks loaded through the real HookConfig.LoadAndValidate -> CreateRateLimiter -> Limit()/Burst(). (c) wall-clock runs (2 quick, 8 thorough) of Hook.RateLimitWait from 1..3 goroutines (queues), start times measured with time.Now(), bound checked with a 40 ms allowance for timer lateness (runtime observation; inconclusive rather than failing when the scheduler was late). (d) ShellOperator.taskHandleHookRun itself (hooks loaded from a generated hooks directory through the real hook manager, `settings` in the hook's --config output) called for queued HookRun tasks from 1..3 goroutines; the hook script logs its own start time; the bound is checked with a 120 ms allowance for process start-up (1 run quick, 4 thorough, one of them unthrottled). (e) the operator's queues (3 corpus + 4 quick / 16 thorough runs): 1-2 generated hooks (the first with `settings`, the second with its own settings or none) with 1-2 schedule bindings in each of 1-3 queues (main and named ones, `queue:` in the hook configuration), schedule events (the real schedule callback of initHookManager) arriving as one burst, a steady stream or at random over ~2.5 intervals and added to the real named queues (NewNamedQueue with the operator's task handler, back-off shortened to 15-40 ms); some bindings FAIL their first 1-3 executions (without allowFailure: the queue retries the task; with allowFailure: no retry); hooks share queues. Every execution START is counted — retries and executions from all queues of the hook — from the time stamps the hook processes write; of each execution the harness knows an interval [lo, hi] containing its grant (lo = the later of: the first event of its binding was queued, the previous execution in the same queue started; hi = its own time stamp), and the bound is checked exactly on every window [lo_i, hi_j] (oracle boundiv; no assumption on process start-up times, S = 0 for a hook living in one queue, 50 ms clock-read skew allowance for several queues). Non-trivial: >= 20 requests of which at least one was delayed; distinct = distinct op-line sequences."
+	r.Rule = "(a) the rate.Limiter returned by the real CreateRateLimiter for random (I, B) — I from 1 ms to 5 s incl. values that are not a whole number of ms, B from 0 (= default 1) to 10 — driven through ReserveN(t,1).DelayFrom(t) with 20..80 (thorough 100) explicit request times on a millisecond grid in 7 arrival patterns (one burst, faster than I, slower than I, exactly I, bursts with gaps, mixed, random); every delay is compared with the integer model (tolerance 1 us) and the window bound B+ceil(T/I) is checked exactly on the limiter's own grant times for every window; unthrottled configurations (no settings, I = 0, I < 0) must never delay; a few cases with request times going backwards exercise the clamp and are checked against the skew bound B+ceil((T+S)/I). 35 % of these cases take the limiter not from CreateRateLimiter but from a HOOK: the same settings written in a hook configuration together with a random non-empty set of other bindings (onStartup, schedule, kubernetes, kubernetesValidating, kubernetesMutating, kubernetesCustomResourceConversion) and loaded by the real Hook.LoadConfig, whose h.RateLimiter is then driven (op line hookcfg; the bound must hold whatever the other bindings are). (b) settings blocks loaded through the real HookConfig.LoadAndValidate -> CreateRateLimiter -> Limit()/Burst(); (b') corpus: settings + each kind of other binding through Hook.LoadConfig. (c) wall-clock runs (2 quick, 8 thorough) of Hook.RateLimitWait from 1..3 goroutines (queues), start times measured with time.Now(), bound checked with a 40 ms allowance for timer lateness (runtime observation; inconclusive rather than failing when the scheduler was late). (d) ShellOperator.taskHandleHookRun itself (hooks loaded from a generated hooks directory through the real hook manager, `settings` in the hook's --config output) called for queued HookRun tasks from 1..3 goroutines; the hook script logs its own start time; the hook has a random set of other bindings (webhooks included) and every task is for an onStartup, a schedule or a kubernetes event; the bound is checked with a 120 ms allowance for process start-up (2 runs quick, 5 thorough, one of them unthrottled). (e) the operator's queues (5 corpus + 4 quick / 16 thorough runs): 1-2 generated hooks (the first with `settings`, the second with its own settings or none; half of the hooks ALSO have webhook bindings - kubernetesValidating / kubernetesMutating / kubernetesCustomResourceConversion - and 30 % an onStartup binding; for the admission bindings the real initValidatingWebhookManager installs the operator's admission handler and 1-2 admission requests per binding are answered through the real router -> op.taskHandler while the queues work: these executions are not queued and are not counted, the queued ones must keep the bound) with 1-2 schedule bindings in each of 1-3 queues (main and named ones, `queue:` in the hook configuration), schedule events (the real schedule callback of initHookManager) arriving as one burst, a steady stream or at random over ~2.5 intervals and added to the real named queues (NewNamedQueue with the operator's task handler, back-off shortened to 15-40 ms); some bindings FAIL their first 1-3 executions (without allowFailure: the queue retries the task; with allowFailure: no retry); hooks share queues. Every execution START is counted — retries and executions from all queues of the hook — from the time stamps the hook processes write; of each execution the harness knows an interval [lo, hi] containing its grant (lo = the later of: the first event of its binding was queued, the previous execution in the same queue started; hi = its own time stamp), and the bound is checked exactly on every window [lo_i, hi_j] (oracle boundiv; no assumption on process start-up times, S = 0 for a hook living in one queue, 50 ms clock-read skew allowance for several queues). Non-trivial: >= 20 requests of which at least one was delayed; distinct = distinct op-line sequences."
 
 	// ---- corpus ----
 	r.One(0, func(c *Case, _ *Rng) {
@@ -436,13 +446,20 @@ func runC18(r *Run) {
 		})
 	}
 	// ---- (d) whole handler: ShellOperator.taskHandleHookRun with a real hook (runtime observation) ----
-	r.Cases(950000, r.N(1, 4), 1, func(c *Case, rng *Rng) {
+	r.Cases(950000, r.N(2, 5), 2, func(c *Case, rng *Rng) {
 		iv := PickOne(rng, []time.Duration{300 * time.Millisecond, 400 * time.Millisecond})
 		b := PickOne(rng, []int{1, 2})
 		queues := rng.Range(1, 3)
 		per := rng.Range(2, 4)
 		throttled := c.Idx != 950003
-		c.Desc = fmt.Sprintf("operator: taskHandleHookRun, I=%v B=%d, %d queues x %d HookRun tasks, throttled=%v", iv, b, queues, per, throttled)
+		// the other bindings of the hook (queued kinds and webhooks) and the kind of event each task is for
+		kinds := c18RandomKinds(rng)
+		if c.Idx == 950000 && !c18Has(kinds, "validating") {
+			kinds = append(kinds, "validating")
+		}
+		btypes := []htypes.BindingType{htypes.OnStartup, htypes.Schedule, htypes.OnKubernetesEvent}
+		c.Desc = fmt.Sprintf("operator: taskHandleHookRun, I=%v B=%d, bindings %s, %d queues x %d HookRun tasks (onStartup / schedule / kubernetes events), throttled=%v",
+			iv, b, strings.Join(kinds, "+"), queues, per, throttled)
 		dir := filepath.Join(r.Scratch, fmt.Sprintf("c18-op-%d", c.Idx))
 		hooks := filepath.Join(dir, "hooks")
 		tmp := filepath.Join(dir, "tmp")
@@ -450,11 +467,7 @@ func runC18(r *Run) {
 		_ = os.MkdirAll(tmp, 0o755)
 		defer os.RemoveAll(dir)
 		logf := filepath.Join(dir, "starts.log")
-		settings := fmt.Sprintf(`, "settings": {"executionMinInterval": "%s", "executionBurst": %d}`, iv.String(), b)
-		if !throttled {
-			settings = ""
-		}
-		script := "#!/bin/bash\nif [[ \"${1:-}\" == \"--config\" ]]; then\n  echo '{\"configVersion\": \"v1\", \"onStartup\": 1" + settings + "}'\n  exit 0\nfi\ndate +%s%N >> " + logf + "\n"
+		script := "#!/bin/bash\nif [[ \"${1:-}\" == \"--config\" ]]; then\ncat <<'EOF'\n" + c18ConfigText(throttled, iv, b, kinds) + "EOF\n  exit 0\nfi\ndate +%s%N >> " + logf + "\n"
 		_ = writeScript(filepath.Join(hooks, "hook.sh"), []byte(script), 0o755)
 		op := shell_operator.NewShellOperator(context.Background(), shell_operator.WithLogger(log.NewNop()))
 		op.MetricStorage = metricstorage.NewMetricStorage(context.Background(), "", true, log.NewNop())
@@ -469,9 +482,19 @@ func runC18(r *Run) {
 			return
 		}
 		if throttled {
-			c.Op(fmt.Sprintf("settings i=%d b=%d", int64(iv), b), c18LimLine(h.RateLimiter))
+			c.Op(fmt.Sprintf("hookcfg i=%d b=%d binds=%s", int64(iv), b, strings.Join(kinds, "+")), c18LimLine(h.RateLimiter))
 		} else {
-			c.Op("settings i=- b=-", c18LimLine(h.RateLimiter))
+			c.Op(fmt.Sprintf("hookcfg i=- b=- binds=%s", strings.Join(kinds, "+")), c18LimLine(h.RateLimiter))
+		}
+		for _, k := range kinds {
+			c.Note("binding:" + k)
+		}
+		// the event kind of every task, drawn before the goroutines start (all randomness from rng)
+		plan := make([][]htypes.BindingType, queues)
+		for q := range plan {
+			for i := 0; i < per; i++ {
+				plan[q] = append(plan[q], PickOne(rng, btypes))
+			}
 		}
 		var wg sync.WaitGroup
 		var mu sync.Mutex
@@ -483,11 +506,16 @@ func runC18(r *Run) {
 			go func(q int) {
 				defer wg.Done()
 				for i := 0; i < per; i++ {
-					bc := bindingcontext.BindingContext{Binding: string(htypes.OnStartup)}
-					bc.Metadata.BindingType = htypes.OnStartup
+					bt := plan[q][i]
+					bc := bindingcontext.BindingContext{Binding: string(bt)}
+					bc.Metadata.BindingType = bt
+					if bt == htypes.OnKubernetesEvent {
+						bc.Type = kemtypes.TypeEvent
+						bc.WatchEvent = kemtypes.WatchEventAdded
+					}
 					t := task.NewTask(task_metadata.HookRun).
 						WithQueueName(fmt.Sprintf("q%d", q)).
-						WithMetadata(task_metadata.HookMetadata{HookName: "hook.sh", BindingType: htypes.OnStartup,
+						WithMetadata(task_metadata.HookMetadata{HookName: "hook.sh", BindingType: bt, Binding: string(bt),
 							BindingContext: []bindingcontext.BindingContext{bc}}).
 						WithQueuedAt(time.Now())
 					mu.Lock()
